@@ -30,7 +30,7 @@ TRANSPORTS = ["bytesio", "simfile", "path"]
 # relative tolerance of the stored representation, by format family
 def fmt_tol(fmt, digits=None):
     base = fmt.split("_", 1)[1] if fmt.startswith(("zip_", "targz_")) else fmt
-    if base in ("obj", "off") and digits:
+    if base in ("obj", "obj_mtl", "off") and digits:
         # the writer was asked for `digits` decimals
         return 10.0 ** -int(digits)
     if base in fw.EXACT:
@@ -41,7 +41,7 @@ def fmt_tol(fmt, digits=None):
         return 1e-6
     if base in ("dae",):
         return 1e-6
-    if base in ("obj", "off", "stl_ascii", "ply_ascii", "xyz"):
+    if base in ("obj", "obj_mtl", "off", "stl_ascii", "ply_ascii", "xyz"):
         return 1e-7
     if base in ("dxf", "svg"):
         return 1e-5
@@ -53,7 +53,7 @@ CARRIES = {
     "corner_colors": {"ply", "ply_ascii", "glb", "gltf", "obj", "dict", "dict64", "zip_ply", "zip_glb", "targz_obj"},
     "face_colors": {"ply", "dict", "dict64", "zip_ply"},  # (the ascii PLY writer deliberately omits face colours)
     "colors": {"ply", "xyz", "glb"},
-    "corner_uv": {"ply", "ply_ascii", "obj", "glb", "gltf", "dae", "zip_ply", "targz_obj"},
+    "corner_uv": {"ply", "ply_ascii", "obj", "obj_mtl", "zip_obj_mtl", "glb", "gltf", "dae", "zip_ply", "targz_obj"},
     "face_quality": set(),
     "corner_weight": set(),
 }
@@ -98,7 +98,17 @@ def compare_content(got, want, tol_rel, ctx, oracle, fmt, exact=False):
                 continue  # the PLY writer stores texture coordinates as vertex attributes, which the option switched off
             ctx.fail(oracle, fmt + "-" + key, "missing after load")
         a, b = got[key], want[key]
-        if key in ("corner_colors", "face_colors", "colors"):
+        if key == "tris_sorted" and np.shape(a) == np.shape(b) and len(b):
+            # a multiset of placed triangles: match by nearest centroid (sorting by rounded centroids is not stable under quantisation)
+            from scipy.spatial import cKDTree
+
+            a, b = np.asarray(a, dtype=float), np.asarray(b, dtype=float)
+            scale = max(1.0, float(np.abs(b).max()))
+            # every expected triangle has an equal observed one and vice versa (coincident instances make exact duplicates)
+            _, idx = cKDTree(a.mean(axis=1)).query(b.mean(axis=1))
+            _, idx2 = cKDTree(b.mean(axis=1)).query(a.mean(axis=1))
+            bad = same(a[idx], b, tol_rel * scale + 1e-12, key) or same(b[idx2], a, tol_rel * scale + 1e-12, key)
+        elif key in ("corner_colors", "face_colors", "colors"):
             bad = same(np.asarray(a)[..., :3], np.asarray(b)[..., :3], 0, key)
         elif key in ("corner_uv", "face_quality", "corner_weight"):
             bad = same(a, b, 1e-6, key)
@@ -116,7 +126,7 @@ def compare_content(got, want, tol_rel, ctx, oracle, fmt, exact=False):
 
 class C08(World):
     ID = "C08"
-    RUNS = {"quick": 24000, "thorough": 1200000}
+    RUNS = {"quick": 12000, "thorough": 1200000}
     WALL = {"quick": 110.0, "thorough": 1700.0}
     BLOCK = 50
     RULE = (
@@ -191,7 +201,7 @@ class C08(World):
         OPTS.clear()
         OPTS.update(cfg.get("opts") or {})
         r = op["geom"]
-        obj = fw.build_geometry(r)
+        obj = fw.build_geometry(r, cfg["fmt"])
         shape = r.get("shape", "")
         if kind == "mesh" and shape == "empty" and fmt not in ("dict", "dict64"):
             # exporters are not required to represent a mesh without faces; we only demand a clean outcome
